@@ -4,7 +4,8 @@
 //! instance* (iteration order of hash-based collections is read from the instance before it is consumed).
 //! Free-running only, no instrumentation: this observes results, nothing else.
 //!
-//!   vbig probe <property> <seed> <out.json> <rounds>
+//!   probe_cXX <property> <seed> <out.json> <rounds>   (one small binary per property, so that each check compiles only
+//!   the terminals it needs)
 
 use orx_parallel::prelude::*;
 use std::collections::{BTreeMap, BTreeSet, BinaryHeap, HashMap, HashSet, LinkedList, VecDeque};
@@ -133,6 +134,7 @@ where
         }};
     }
     match prop {
+        #[cfg(feature = "c01")]
         "C01" => {
             macro_rules! t {
                 ($n:expr, $pc:expr, $sc:expr) => {{
@@ -147,6 +149,7 @@ where
             }
             chains!(t);
         }
+        #[cfg(feature = "c06")]
         "C06" => {
             macro_rules! t {
                 ($n:expr, $pc:expr, $sc:expr) => {{
@@ -164,6 +167,7 @@ where
             }
             chains!(t);
         }
+        #[cfg(feature = "c07")]
         "C07" => {
             macro_rules! t {
                 ($n:expr, $pc:expr, $sc:expr) => {{
@@ -176,6 +180,7 @@ where
             }
             chains!(t);
         }
+        #[cfg(feature = "c04")]
         "C04" => {
             macro_rules! t {
                 ($n:expr, $pc:expr, $sc:expr) => {{
@@ -195,6 +200,7 @@ where
             }
             chains!(t);
         }
+        #[cfg(feature = "c03")]
         "C03" => {
             macro_rules! t {
                 ($n:expr, $pc:expr, $sc:expr) => {{
@@ -209,6 +215,7 @@ where
             }
             chains!(t);
         }
+        #[cfg(feature = "c02")]
         "C02" => {
             macro_rules! t {
                 ($n:expr, $pc:expr, $sc:expr) => {{
@@ -320,6 +327,7 @@ pub fn main(a: &[String]) {
         }
         probe(&mut o, p, "(a..b).into_par().map", c, &data, || (0..n).into_par().map(|i| data[i]));
     }
+    preconsumed(&mut o, &prop);
     let json = format!(
         "{{\"prop\":\"{}\",\"seed\":{},\"n\":0,\"cases_count\":{},\"cases\":[{}],\"sample\":[{}],\"violations\":[{}],\"wall_s\":{:.2}}}",
         prop,
@@ -334,5 +342,78 @@ pub fn main(a: &[String]) {
         println!("{}", json);
     } else {
         std::fs::write(out_path, json).expect("write");
+    }
+}
+
+/// A concurrent iterator that was partially consumed before it became a `Par` (`IntoPar for ConIterOfVec`).
+/// Violations found here carry their own key (`[key=...]` prefix), see KNOWN_FINDINGS.txt.
+fn preconsumed(o: &mut Out, prop: &str) {
+    let prev_hook = std::panic::take_hook();
+    std::panic::set_hook(Box::new(|_| {}));
+    preconsumed_inner(o, prop);
+    std::panic::set_hook(prev_hook);
+}
+
+fn preconsumed_inner(o: &mut Out, prop: &str) {
+    use orx_concurrent_iter::{ConcurrentIterX, IntoConcurrentIter};
+    use std::panic::{catch_unwind, AssertUnwindSafe};
+    for &(n, k) in &[(12usize, 1usize), (40, 7), (200, 150)] {
+        let data: Vec<u64> = (0..n as u64).map(|x| x * 3 + 1).collect();
+        let make = || {
+            let it = data.clone().into_con_iter();
+            for _ in 0..k {
+                let _ = it.next();
+            }
+            it
+        };
+        let rest: Vec<u64> = data[k..].to_vec();
+        match prop {
+            "C01" => {
+                // map-only ordered collect of the remaining elements
+                for nt in [2usize, 4] {
+                    o.cases += 1;
+                    o.kinds.insert("ConIterOfVec(partially consumed).into_par() / map / collect_vec".to_string());
+                    let r = catch_unwind(AssertUnwindSafe(|| make().into_par().num_threads(nt).chunk_size(2).map(m1).collect_vec()));
+                    let exp: Vec<u64> = rest.iter().copied().map(m1).collect();
+                    match r {
+                        Ok(got) if got == exp => {}
+                        Ok(got) => o.violations.push(format!(
+                            "[key=preconsumed-coniter:map-only-collect] {} of {} elements consumed before into_par(), nt={}: map.collect_vec returned {} elements, the remaining input has {}",
+                            k, n, nt, got.len(), exp.len()
+                        )),
+                        Err(_) => o.violations.push(format!(
+                            "[key=preconsumed-coniter:map-only-collect] {} of {} elements consumed before into_par(), nt={}: map.collect_vec panicked (results are written at absolute source positions into a target reserved for the remaining length)",
+                            k, n, nt
+                        )),
+                    }
+                    // filtering collects use relative order only: must be fine
+                    o.cases += 1;
+                    let got = make().into_par().num_threads(nt).chunk_size(2).filter(f1).collect_vec();
+                    let exp: Vec<u64> = rest.iter().copied().filter(f1).collect();
+                    if got != exp {
+                        o.violations.push(format!("partially consumed ConIterOfVec: filter.collect_vec differs ({} vs {} elements)", got.len(), exp.len()));
+                    }
+                }
+            }
+            "C02" => {
+                o.cases += 1;
+                o.kinds.insert("ConIterOfVec(partially consumed).into_par() / first_with_index".to_string());
+                let par = make().into_par().num_threads(3).chunk_size(2).first_with_index();
+                let seq = make().into_par().num_threads(1).first_with_index();
+                if par != seq {
+                    o.violations.push(format!(
+                        "[key=preconsumed-coniter:index-differs-between-modes] {} of {} elements consumed before into_par(): first_with_index returns {:?} in parallel mode (position in the underlying vector) and {:?} with num_threads(1) (position among the remaining elements)",
+                        k, n, par, seq
+                    ));
+                }
+                o.cases += 1;
+                let got = make().into_par().num_threads(3).chunk_size(2).find(|x| x % 5 == 0);
+                let exp = rest.iter().copied().find(|x| x % 5 == 0);
+                if got != exp {
+                    o.violations.push(format!("partially consumed ConIterOfVec: find returned {:?}, expected {:?}", got, exp));
+                }
+            }
+            _ => {}
+        }
     }
 }
